@@ -76,6 +76,12 @@ def run(prop, tier, seed):
             s = corpus.random_vector(rnd, ver)[3]
             fl = rnd.choice([[], ["-2"], ["-3"], ["-4"]]) + (["-j"] if rnd.random() < 0.5 else [])
             items.append({"args": [esc(a) for a in fl + ["-v", s]], "stdin": []})
+        # ambient settings of the process: output encodings that cannot represent everything, locale, warnings as errors
+        envs = [{"PYTHONIOENCODING": "ascii"}, {"PYTHONIOENCODING": "latin-1"}, {"PYTHONIOENCODING": "cp1252"}, {"LC_ALL": "C", "PYTHONUTF8": "0", "PYTHONCOERCECLOCALE": "0"},
+                {"PYTHONWARNINGS": "error"}, {"PYTHONDEVMODE": "1"}, {"COLUMNS": "20"}, {"TERM": "dumb"}, {"NO_COLOR": "1"}]
+        for k_, it in enumerate(items):
+            if k_ % 4 == 2:
+                it["env"] = envs[(k_ // 4) % len(envs)]
         ev = record_events(items, work, name="cli", script="cli.py")
         judge(c, prop, ev, work, "cli", module="TraceCli", cfg="TraceCli.cfg", extra_states=0,
               keyfn=lambda e, what: "C17|%s|flags=%s" % (what, ",".join(sorted(a for a in e["args"] if a.startswith("-") and len(a) <= 12 and a not in ("-v", "--vector")))))
